@@ -118,6 +118,22 @@ func extractC12(repo string) (string, error) {
 	}
 	sb.WriteString(c12Lean("newSlotAppliedRule", rule))
 	sb.WriteString(c12Lean("newSlot", c12CallOrder(fd)))
+	// resolveProposal: the guard that decides whether a tracked future is completed by an applied entry
+	rp := findMethod(f, "slot", "resolveProposal")
+	if rp == nil || rp.Body == nil {
+		return "", fmt.Errorf("resolveProposal not found")
+	}
+	guard := ""
+	for _, st := range rp.Body.List {
+		if ifs, ok := st.(*ast.IfStmt); ok {
+			guard = c12Src(fset, ifs.Cond)
+			break
+		}
+	}
+	if guard == "" {
+		return "", fmt.Errorf("resolveProposal: no guard found")
+	}
+	sb.WriteString(fmt.Sprintf("def resolveProposalGuard : String := %s\n", leanStr(guard)))
 	sb.WriteString("\nend WK.Gen.C12\n")
 	return sb.String(), nil
 }
